@@ -559,6 +559,18 @@ func main() {
 	for _, w := range nodeWrites {
 		nwl = append(nwl, fmt.Sprintf("    ⟨%s, %s, %s, %v, %v⟩", ex.LeanString(w.typ), ex.LeanString(w.method), ex.LeanString(w.field), w.parserBuilt, w.called))
 	}
+	guards, counters := scanDepthGuards(a.Repo, bad)
+	var gl, ctl []string
+	for _, g := range guards {
+		var oc []string
+		for _, o := range g.ownCounts {
+			oc = append(oc, ex.LeanString(o))
+		}
+		gl = append(gl, fmt.Sprintf("    ⟨%s, %s, %d, %s, %d, [%s], %v⟩", ex.LeanString(g.fn), ex.LeanString(g.counter), g.limit, ex.LeanString(g.decidesOn), g.ownLimit, strings.Join(oc, ", "), g.balanced))
+	}
+	for _, c := range counters {
+		ctl = append(ctl, fmt.Sprintf("    ⟨%s, %s, %v⟩", ex.LeanString(c.name), ex.LeanString(c.typ), c.atomic))
+	}
 	sort.Strings(shape)
 	var sl []string
 	for i, s := range shape {
@@ -566,13 +578,13 @@ func main() {
 			sl = append(sl, ex.LeanString(s))
 		}
 	}
-	fmt.Fprintf(&sb, "\n  ],\n  nodeWrites := [\n%s\n  ],\n  shape := [%s]\n}\n\nend Generated.C11Superglobals\n", strings.Join(nwl, ",\n"), strings.Join(sl, ", "))
+	fmt.Fprintf(&sb, "\n  ],\n  nodeWrites := [\n%s\n  ],\n  depthGuards := [\n%s\n  ],\n  vmCounters := [\n%s\n  ],\n  shape := [%s]\n}\n\nend Generated.C11Superglobals\n", strings.Join(nwl, ",\n"), strings.Join(gl, ",\n"), strings.Join(ctl, ",\n"), strings.Join(sl, ", "))
 	if err := ex.WriteIfChanged(a.Out, "C11Superglobals.lean", sb.String()); err != nil {
 		fmt.Fprintln(os.Stderr, err)
 		os.Exit(1)
 	}
-	fmt.Printf("C11Superglobals: %d cells, %d request functions, %d package vars, %d receiver stores in evaluation methods of package node, outerReset=%v routesFinalized=%v, %d shape notes\n",
-		len(cl), len(el), len(pl), len(nwl), outerReset, routesFinalized, len(sl))
+	fmt.Printf("C11Superglobals: %d cells, %d request functions, %d package vars, %d receiver stores in evaluation methods of package node, %d guards on %d VM counters, outerReset=%v routesFinalized=%v, %d shape notes\n",
+		len(cl), len(el), len(pl), len(nwl), len(gl), len(ctl), outerReset, routesFinalized, len(sl))
 }
 
 func unparen(e ast.Expr) ast.Expr {
